@@ -293,6 +293,13 @@ func (s *Server) RoundTrip(req *http.Request) (*http.Response, error) {
 func (s *Server) BuildAnswer(z *Zone, id uint16, qu Question) *Msg {
 	ans, rc := z.Lookup(qu.Name, qu.Type)
 	m := &Msg{ID: id, Flags: 0x8180 | uint16(rc), Question: []Question{qu}, Answer: ans}
+	if z.Bulk > 0 && len(ans) > 0 {
+		var txt []string
+		for n := 0; n < z.Bulk; n += 200 {
+			txt = append(txt, strings.Repeat("b", min(200, z.Bulk-n)))
+		}
+		m.Answer = append([]RR{{Name: "bulk.evil.test", Type: TypeTXT, TTL: 3600, TXT: txt}}, ans...)
+	}
 	for i := range z.Poison {
 		// poisoned CNAMEs (owned by unrelated names) ride along with every answer
 		if z.Poison[i].Type == qu.Type || z.Poison[i].Type == TypeCNAME {
